@@ -104,6 +104,10 @@ func (g *gen) property(p string) bool {
 		g.genSmallest()
 	case "C14":
 		g.genCheckSum()
+	case "C15":
+		g.genMixed(g.n(400, 3000), true)
+	case "C16":
+		g.genMixed(g.n(300, 1500), false)
 	case "C17":
 		g.genGF()
 	case "C18":
